@@ -618,6 +618,26 @@ example : DistinctL toySrc ∧ (pathsL toySrc).map (·.1) = [[[97]], [[98]], [[9
     (pathsL toySrc).all (fun pt => (findL toySrc pt.1).map (·.node.name) == some pt.2.node.name) = true := by
   refine ⟨by simp [toySrc, DistinctL, STree.Distinct, STree.node], by decide, by decide⟩
 
+open Rustic.Snapshot Rustic.Tree Rustic.Archive in
+/-- (17) **The size a node records is not a hypothesis of the round trip.**  The well-formedness that (9)–(11), (15) ask of a source
+forest does not look at `md.size`: a file leaf stays well-formed under ANY recorded size (0 = a stdin-style node — `backup -`,
+`--stdin-command`, block device saved as file —, smaller = grown after `stat`, larger = shrunk), so `archive_restore` restores such a
+leaf to the same node (the recorded size included) and to the bytes that were READ.  (Restoring over an EXISTING destination is not part
+of the model: there the empty-file shortcut of `RestorePlan::add_file` trusted `meta.size == 0` — defect 623025e, found by the
+`S:` entries of `c01 e2e`.) -/
+theorem leaf_wf_any_recorded_size (n : Node) (d : RoundTrip.Bytes) (sz : Nat) (h : (STree.leaf n d).WF) :
+    (STree.leaf (withSize n sz) d).WF := by
+  simpa [STree.WF, withSize] using h
+
+open Rustic.Snapshot Rustic.Tree Rustic.Archive in
+/-- a stdin-style leaf: 3 bytes behind a node recording size 0 is a well-formed, walkable source forest; what the archiver saves for
+it refers to the chunk of its 3 bytes -/
+example :
+    let n : Node := { name := [115], kind := .file, md := { size := 0, mtime := none, ctime := none, inode := 0 } }
+    WFL [.leaf n [1, 2, 3]] ∧ WalkableL [.leaf n [1, 2, 3]] ∧
+    (saveL (fun ns => ns.length) (fun b => b.length) (fun d => [d]) noTree [.leaf n [1, 2, 3]]).chunks = [[1, 2, 3]] := by
+  refine ⟨by simp [WFL, STree.WF], by simp [WalkableL, STree.Walkable], by decide⟩
+
 /-- the indexer flushing after every 3 blobs and once by age: three index files, every pack listed once -/
 example :
     let p (i n : Nat) : Rustic.Index.IndexPack :=
